@@ -95,6 +95,8 @@ def fixed_scenarios():
     p = P(); a = p.new(0); b = p.new(1); d = p.new(1); p.g1(b, "H"); p.g2(b, d); b0 = p.send(b, 0); d2 = p.send(d, 2); p.g1(a, "H")
     out.append(p.scn("gate and measurement of a qubit whose register is being pulled to another node", [("g2", a, b0, "cnot"), ("g1", d2, "X"), ("meas", d2, 1)],
                      {str(d): [1, 0], str(b): [0]}))
+    p = P(); a = p.new(0); b = p.new(1); d = p.new(1); p.g1(b, "H"); p.g2(b, d); b0 = p.send(b, 0); d2 = p.send(d, 2); c = p.new(2); p.g1(c, "H")
+    out.append(p.scn("two merges pulling one register to two different nodes", [("g2", a, b0, "cnot"), ("g2", c, d2, "cnot")]))
     p = P(); a = p.new(0); b = p.new(1); b0 = p.send(b, 0); c = p.new(1); p.g1(a, "H")
     out.append(p.scn("send racing with a merge", [("g2", a, b0, "cnot"), ("send", c, 0)]))
     # -- two clients, one qubit ----------------------------------------------------------------------------------------
